@@ -352,6 +352,32 @@ def analyse(view, local_crates, X=None, allow_extra=()):
                     prev = outs.get(tgt)
                     outs[tgt] = frozenset(s2) if prev is None else (prev | frozenset(s2))
                 refined = True
+            elif info["kind"] == "discr" and info["place"] is not None and info["place"]["l"] in tracked_set and len(info["place"]["p"]) == 2 \
+                    and info["place"]["p"][0]["k"] == "downcast" and info["place"]["p"][1]["k"] == "field" and info["place"].get("ty") is not None:
+                # `match x { Continue(None) => .., Continue(Some(e)) | Break(e) => .. }`: the discriminant of `(x as V).0` is only
+                # read where x is V; on the edge where that payload is a variant without an error (None), x holds none either
+                l = info["place"]["l"]
+                outer_v = info["place"]["p"][0].get("variant")
+                fields_of_v = None
+                lt_ = b.lty(l)
+                adt_ = crate.adts.get(lt_.get("path")) if lt_["k"] == "adt" else None
+                if adt_:
+                    for vv in adt_["variants"]:
+                        if vv["name"] == outer_v:
+                            fields_of_v = len(vv["fields"])
+                ti = info["place"]["ty"]
+                for lb, tgt in info["edges"]:
+                    s2 = set(state)
+                    if fields_of_v == 1:
+                        if lb is not None and not carry.variant_carries(ti, lb):
+                            s2.discard(l)
+                            stats["refinements"] += 1
+                        elif lb is None and (info["others"] or []) and all(not carry.variant_carries(ti, o) for o in info["others"]):
+                            s2.discard(l)
+                            stats["refinements"] += 1
+                    prev = outs.get(tgt)
+                    outs[tgt] = frozenset(s2) if prev is None else (prev | frozenset(s2))
+                refined = True
             if not refined:
                 for s in view.succ[bb]:
                     outs[s] = frozenset(state)
